@@ -154,7 +154,12 @@ def run(tier, seed, factor=1):
                 "accounts for, and vs the Lean threshold walk; non-trivial = a case with >=2 objects; distinct by config / rule")
     rnd = random.Random(seed * 1000003 + 8)
     N = common.scale(tier, 4, 5)
-    outs = specrun.pool_map(spec_worker, [(c, N) for c in speccheck.make_configs(rnd, common.scale(tier, 120, 1500) * factor)])
+    cfgs = speccheck.make_configs(rnd, common.scale(tier, 120, 1500) * factor)
+    for _ in range(max(6, len(cfgs) // 10)):  # U-gram: unions with a repeated child, products, reverse rules
+        cfgs.append(dict(gram=[rnd.choice(["S", "S", "F", "Y", "E"]) for _ in range(rnd.choice([1, 2, 2]))], gram_flat=True, alpha="ab",
+                         db=rnd.choice(["RuleDB", "RuleDBForgetStrategy", "RuleDBForest"]), seed=rnd.randrange(10**6), perc=rnd.choice([100, 20, 1]),
+                         smallest=False, expand_verified=False))
+    outs = specrun.pool_map(spec_worker, [(c, N) for c in cfgs])
     specrun.quiet()
     for o in outs:
         res.case(("cfg", repr(sorted(o["cfg"].items()))), nontrivial=o["cases"] >= 2)
